@@ -143,6 +143,7 @@ type instrReport struct {
 	LocksUnowned     []string `json:"locks_unowned"`
 	AtomicFuncs      []string `json:"atomic_funcs"`
 	GoStmts          int      `json:"go_stmts"`
+	SyncSites        []string `json:"sync_sites"`
 	API              []struct {
 		Name      string `json:"name"`
 		Sig       string `json:"sig"`
@@ -1269,7 +1270,7 @@ func writeEvidence(sc *scratch, id, tier string, seed uint64, seeds []uint64, m 
 		"instrumentation": map[string]any{
 			"map_ranges_owned": sc.report.MapRanges, "map_ranges_unowned": sc.report.MapRangesUnowned,
 			"lock_rewrites": sc.report.LockRewrites, "locks_unowned": sc.report.LocksUnowned,
-			"atomic_funcs": sc.report.AtomicFuncs, "go_statements_in_library": sc.report.GoStmts,
+			"atomic_funcs": sc.report.AtomicFuncs, "go_statements_in_library": sc.report.GoStmts, "sync_operation_sites": len(sc.report.SyncSites),
 		},
 		"instrumented_repo_tests": instrTests,
 		"worker_processes":        agg.workerProcs,
